@@ -11,19 +11,21 @@ def plan(tier):
                 "cfg": "SuffixIndexMC_C03s.cfg" if q else "SuffixIndexMC_C03s_thorough.cfg",
                 "timeout": 3000, "args": ["-coverage", "1"]}],
         "families": [{"fam": "sa", "trace": "SuffixIndexTraceSa", "nfiles": 3 if q else 4, "timeout": 3000}],
-        "required_obligations": ["exhaustive_small", "width_boundary_sweep_250_262", "more_than_65535_sentinels", "text_longer_than_2p24_sampled", "recursion_smallest_witness", "single_lms", "random_multi_sentinel", "random_long", "transform_u16",
+        "required_obligations": ["exhaustive_small", "exhaustive_binary_12", "lms_substring_longer_than_lms_count", "more_than_65536_distinct_lms_names", "width_boundary_sweep_250_262", "more_than_65535_sentinels", "text_longer_than_2p24_sampled", "recursion_smallest_witness", "single_lms", "random_multi_sentinel", "random_long", "transform_u16",
                                  "transform_u8_limit_255", "transform_u16_limit_256", "int_alphabet_gt_255", "int_u8",
                                  "sample_multi_sentinel", "sample_rate_gt_n", "sample_rate_eq_n", "sample_occ_rate_gt64",
                                  "lcp_plant_126", "lcp_plant_127", "lcp_plant_128", "lcp_plant_200"]
-                                + ["repetitive_" + r for r in REPS] + ([] if q else ["width_boundary_65538"]),
+                                + ["repetitive_" + r for r in REPS] + ([] if q else ["width_boundary_65538", "long_random_bytes_300k"]),
         "rule": "one run = one text: suffix_array (or suffix_array_int), lcp, shortest_unique_substrings, and one "
-                "`sample` event per (s, Occ rate, ownership) carrying every get(i); exhaustive over {A,C}*$ (n<=9 quick / 11 thorough) and "
+                "`sample` event per (s, Occ rate, ownership) carrying every get(i); exhaustive over {A,C}*$ (n<=9 quick / 11 thorough with lcp/sus/sampling; suffix_array alone up to "
+                "n=13 / 14) and "
                 "{A,C,$}*$ with <=3 sentinels (n<=7 / 8), random DNA/protein/byte texts up to 2000 (multi-sentinel too), "
                 "repetitive texts up to 300 (unary, periodic, Fibonacci, Thue-Morse, (ab)^k a, runs, squares), "
                 ">255 symbol classes (u16 transform) and the 255/256 limit, every alphabet-size + sentinel-count sum 250..262 with varying letter counts "
                 "(65,537/65,538 in thorough), dense integer texts (alphabet up to 1200, "
                 "u8/u16/u32/usize), a read collection with > 66,000 sentinels (32 bit ranks; validated with the row "
-                "witness form IsValidSAW), the unary text of length 2^24+1 sampled (closed-form family), planted repeats of length 125..129, 200, 254..256 around the SmallInts escape value",
+                "witness form IsValidSAW), the unary text of length 2^24+1 sampled (closed-form family), block texts [x](a^i b^j)^r and [x](a^i b^j c^k)^r (LMS substrings longer than the LMS count), the zigzag "
+                "integer text with 70,000 distinct LMS substrings (closed form), planted repeats of length 125..129, 200, 254..256 around the SmallInts escape value",
         "bounds": {"mc": "Sym={a,b}+sentinel, n<=6 (quick) / 7 (thorough), <=3 sentinel occurrences; s in 1..n+1, "
                          "Occ rates {1,2,3} with T=1, Esc=2; SA-IS machine: all texts over {a,b}+<=3 sentinels n<=8 (quick) / 10 "
                          "(thorough) plus Fibonacci/Thue-Morse/period-5/(ab)^k a/two-copy texts of length 21..55 "
